@@ -5,6 +5,15 @@
 #include "vpbt.h"
 #include "oracles.h"
 #include <half.h>
+#include <cfenv>
+#if defined(__SSE2__)
+#    include <xmmintrin.h>
+#    include <pmmintrin.h>
+#endif
+
+extern "C" void     c01_fpexc_f2h_block (uint32_t hi, uint16_t* out);
+extern "C" uint32_t c01_fpexc_h2f (uint16_t h);
+extern "C" int      c01_fpexc_flags (uint32_t u, uint16_t* out);
 
 using namespace orc;
 using IMATH_NAMESPACE::half;
@@ -182,6 +191,202 @@ VP_EXHAUSTIVE (oracle_crosscheck, 65536, 65536, "oracle-vs-oracle: by-value code
     }
     VP_NOTE (c, "block 0x" << std::hex << hi);
     c.bulk (n, n);
+}
+
+// ---------------------------------------------------------------------------
+// The conversions are integer algorithms: the result must not depend on the thread's floating-point environment.
+// Modes: the three non-default rounding directions and (x86) flush-to-zero + denormals-are-zero.
+struct FpMode
+{
+    int   id; // 0 upward, 1 downward, 2 toward zero, 3 FTZ+DAZ
+    int   old_round;
+#if defined(__SSE2__)
+    unsigned old_csr;
+#endif
+    explicit FpMode (int m) : id (m)
+    {
+        old_round = fegetround ();
+#if defined(__SSE2__)
+        old_csr = _mm_getcsr ();
+#endif
+        switch (m)
+        {
+            case 0: fesetround (FE_UPWARD); break;
+            case 1: fesetround (FE_DOWNWARD); break;
+            case 2: fesetround (FE_TOWARDZERO); break;
+            default:
+#if defined(__SSE2__)
+                _MM_SET_FLUSH_ZERO_MODE (_MM_FLUSH_ZERO_ON);
+                _MM_SET_DENORMALS_ZERO_MODE (_MM_DENORMALS_ZERO_ON);
+#endif
+                break;
+        }
+    }
+    ~FpMode ()
+    {
+#if defined(__SSE2__)
+        _mm_setcsr (old_csr);
+#endif
+        fesetround (old_round);
+    }
+};
+static const char* FPMODE[] = { "FE_UPWARD", "FE_DOWNWARD", "FE_TOWARDZERO", "FTZ+DAZ" };
+
+static inline bool fenv_interesting_block (uint32_t hi16)
+{
+    uint32_t m = hi16 & 0x7fff;
+    return (m >= 0x3200 && m <= 0x3900) || (m >= 0x4700 && m <= 0x4800) || m <= 0x0080 || m >= 0x7f00;
+}
+
+VP_EXHAUSTIVE (f2h_fp_environment, 65536, 65536, "every float bit pattern converted while the calling thread's floating-point environment is non-default: rounding direction FE_UPWARD / FE_DOWNWARD / FE_TOWARDZERO and (x86) flush-to-zero + denormals-are-zero; blocks whose results are subnormal, near the overflow threshold, float-subnormal or NaN run in all 4 modes, the others in one rotating mode (thorough: every block in all 4); C function and class constructor; results compared after the environment is restored; non-trivial = as in f2h_all")
+{
+    uint32_t hi = (uint32_t) idx << 16;
+    static thread_local std::vector<uint16_t> a (65536), b (65536);
+    bool     all = vp::thorough_flag () || fenv_interesting_block ((uint32_t) idx);
+    uint64_t evals = 0, nontriv = 0, lab[64];
+    memset (lab, 0, sizeof lab);
+    VP_NOTE (c, "float patterns 0x" << std::hex << hi << "..0x" << (hi | 0xffff) << (all ? " in all 4 environments" : " in one environment"));
+    for (int m = 0; m < 4; ++m)
+    {
+        if (!all && m != (int) (idx & 3)) continue;
+        {
+            FpMode guard (m);
+            for (uint32_t lo = 0; lo < 65536; ++lo)
+            {
+                float f = u2f (hi | lo);
+                a[lo]   = imath_float_to_half (f);
+                half hh (f);
+                b[lo] = hh.bits ();
+            }
+        }
+        for (uint32_t lo = 0; lo < 65536; ++lo)
+        {
+            uint32_t u    = hi | lo;
+            uint16_t want = ref_f2h_bits (u);
+            if (a[lo] != want) VP_FAIL (c, "f2h-fp-environment/c-function", "under " << FPMODE[m] << " imath_float_to_half(0x" << std::hex << u << ") = 0x" << a[lo] << " expected 0x" << want);
+            if (b[lo] != want) VP_FAIL (c, "f2h-fp-environment/class-ctor", "under " << FPMODE[m] << " half(float 0x" << std::hex << u << ").bits() = 0x" << b[lo] << " expected 0x" << want);
+            if (m == 0 || !all) classify_f2h (u, want, lab, nontriv);
+        }
+        evals += 65536;
+        c.bulk_label (8 + m, 65536);
+    }
+    c.bulk (evals, all ? nontriv * 4 : nontriv);
+    for (int l = 0; l < 8; ++l)
+        if (lab[l]) c.bulk_label (l, lab[l]);
+}
+VP_LABELS (f2h_fp_environment, "tie_normal", "tie_subnormal", "overflow", "flush", "nan", "subnormal", "rounded", "exact", "FE_UPWARD", "FE_DOWNWARD", "FE_TOWARDZERO", "FTZ+DAZ")
+VP_REQUIRE_LABELS (f2h_fp_environment, "tie_normal", "tie_subnormal", "overflow", "flush", "nan", "subnormal", "FE_UPWARD", "FE_DOWNWARD", "FE_TOWARDZERO", "FTZ+DAZ")
+
+VP_EXHAUSTIVE (h2f_fp_environment, 65536, 65536, "every half bit pattern converted to float (C function and cast) under the same 4 non-default floating-point environments; non-trivial = subnormal, inf or NaN pattern")
+{
+    uint16_t h    = (uint16_t) idx;
+    uint32_t want = ref_h2f_bits (h);
+    uint32_t g1[4], g2[4];
+    half     hh;
+    hh.setBits (h);
+    for (int m = 0; m < 4; ++m)
+    {
+        FpMode guard (m);
+        g1[m] = f2u (imath_half_to_float (h));
+        g2[m] = f2u ((float) hh);
+    }
+    int e = (h >> 10) & 31, mm = h & 0x3ff;
+    c.nt (e == 31 || (e == 0 && mm));
+    VP_NOTE (c, "half=0x" << std::hex << h << " expect float bits 0x" << want << " in every environment");
+    for (int m = 0; m < 4; ++m)
+    {
+        VP_REQUIRE (c, g1[m] == want, "h2f-fp-environment/c-function", "under " << FPMODE[m] << " imath_half_to_float(0x" << std::hex << h << ") = 0x" << g1[m] << " expected 0x" << want);
+        VP_REQUIRE (c, g2[m] == want, "h2f-fp-environment/class-cast", "under " << FPMODE[m] << " float(half 0x" << std::hex << h << ") = 0x" << g2[m] << " expected 0x" << want);
+    }
+}
+
+// ---------------------------------------------------------------------------
+// The documented IMATH_HALF_ENABLE_FP_EXCEPTIONS configuration (second TU): same bits for every input; and the
+// exceptions it promises: FE_OVERFLOW exactly when a finite float becomes infinity, FE_UNDERFLOW when a non-zero float
+// is flushed to zero, neither for exactly representable values.
+VP_EXHAUSTIVE (f2h_fp_exceptions_config, 65536, 65536, "float bit patterns (quick: the blocks around the overflow and flush thresholds, subnormal results, float subnormals, NaNs, and every 4th other block = 1.1e9 patterns; thorough: all 2^32) through imath_float_to_half compiled with IMATH_HALF_ENABLE_FP_EXCEPTIONS defined (separate translation unit), compared with the oracle; plus, per block, 40 patterns (boundaries of the overflow / flush thresholds and a stride) whose raised exception flags are checked; half->float of the block index in that configuration; non-trivial = as in f2h_all")
+{
+    uint32_t hi = (uint32_t) idx << 16;
+    static thread_local std::vector<uint16_t> a (65536);
+    // quick tier: threshold / subnormal / NaN blocks and every 4th other block (feraiseexcept on every overflowing or
+    // flushed input makes this configuration ~10x slower than the default one); thorough: every block
+    if (!vp::thorough_flag () && !fenv_interesting_block ((uint32_t) idx) && (idx & 3) != 1)
+    {
+        c.bulk (0, 0);
+        return;
+    }
+    c01_fpexc_f2h_block (hi, a.data ());
+    uint64_t lab[64], nontriv = 0;
+    memset (lab, 0, sizeof lab);
+    VP_NOTE (c, "float patterns 0x" << std::hex << hi << "..0x" << (hi | 0xffff) << " (FP-exceptions configuration)");
+    for (uint32_t lo = 0; lo < 65536; ++lo)
+    {
+        uint32_t u    = hi | lo;
+        uint16_t want = ref_f2h_bits (u);
+        if (a[lo] != want) VP_FAIL (c, "f2h-fpexc-config", "IMATH_HALF_ENABLE_FP_EXCEPTIONS: imath_float_to_half(0x" << std::hex << u << ") = 0x" << a[lo] << " expected 0x" << want);
+        classify_f2h (u, want, lab, nontriv);
+    }
+    static const uint32_t SP[] = { 0x0000, 0x0001, 0x7fff, 0x8000, 0xdfff, 0xe000, 0xe001, 0xefff, 0xf000, 0xf001, 0xffff, 0x1000, 0x0fff, 0x1001 };
+    for (uint32_t k = 0; k < 40; ++k)
+    {
+        uint32_t lo = k < 14 ? SP[k] : (k * 2521u + (uint32_t) idx * 7u) & 0xffff;
+        uint32_t u = hi | lo, mag = u & 0x7fffffffu;
+        uint16_t got;
+        int      fl   = c01_fpexc_flags (u, &got);
+        uint16_t want = ref_f2h_bits (u);
+        if (got != want) VP_FAIL (c, "f2h-fpexc-config", "IMATH_HALF_ENABLE_FP_EXCEPTIONS: imath_float_to_half(0x" << std::hex << u << ") = 0x" << got << " expected 0x" << want);
+        bool finite = mag < 0x7f800000u;
+        bool ovf    = finite && (want & 0x7fff) == 0x7c00;
+        bool flush  = mag != 0 && (want & 0x7fff) == 0;
+        if (ovf && !(fl & 1)) VP_FAIL (c, "f2h-fpexc-overflow-not-raised", "IMATH_HALF_ENABLE_FP_EXCEPTIONS: float 0x" << std::hex << u << " overflows to 0x" << got << " without FE_OVERFLOW");
+        if (flush && !(fl & 2)) VP_FAIL (c, "f2h-fpexc-underflow-not-raised", "IMATH_HALF_ENABLE_FP_EXCEPTIONS: float 0x" << std::hex << u << " is flushed to 0x" << got << " without FE_UNDERFLOW");
+        bool exact = finite && ref_h2f_bits (want) == u;
+        if (exact && fl) VP_FAIL (c, "f2h-fpexc-spurious", "IMATH_HALF_ENABLE_FP_EXCEPTIONS: float 0x" << std::hex << u << " is exactly representable (0x" << got << ") but raised flags " << fl);
+        if (!finite && (fl & 1)) VP_FAIL (c, "f2h-fpexc-spurious", "IMATH_HALF_ENABLE_FP_EXCEPTIONS: inf/NaN 0x" << std::hex << u << " raised FE_OVERFLOW");
+    }
+    uint32_t w = c01_fpexc_h2f ((uint16_t) idx);
+    if (w != ref_h2f_bits ((uint16_t) idx)) VP_FAIL (c, "h2f-fpexc-config", "IMATH_HALF_ENABLE_FP_EXCEPTIONS: imath_half_to_float(0x" << std::hex << idx << ") = 0x" << w);
+    c.bulk (65536 + 41, nontriv);
+    for (int l = 0; l < 8; ++l)
+        if (lab[l]) c.bulk_label (l, lab[l]);
+}
+VP_LABELS (f2h_fp_exceptions_config, "tie_normal", "tie_subnormal", "overflow", "flush", "nan", "subnormal", "rounded", "exact")
+
+// ---------------------------------------------------------------------------
+// Conversions made during static initialisation (a namespace-scope `static const float kMax = half(...)` in user code):
+// this TU is linked before the library objects, so its static initialisers run before any dynamic initialiser of
+// half.cpp.  The snapshot is taken there and compared here.
+struct StaticInitSnapshot
+{
+    std::vector<uint32_t> h2f_c, h2f_cast;
+    std::vector<uint16_t> f2h;
+    StaticInitSnapshot () : h2f_c (65536), h2f_cast (65536), f2h (65536)
+    {
+        for (uint32_t h = 0; h < 65536; ++h)
+        {
+            h2f_c[h] = f2u (imath_half_to_float ((uint16_t) h));
+            half x;
+            x.setBits ((uint16_t) h);
+            h2f_cast[h] = f2u ((float) x);
+            // floats spread over the whole range: high 16 bits = h, low bits a hash
+            half y (u2f ((h << 16) | ((h * 40503u) & 0xffff)));
+            f2h[h] = y.bits ();
+        }
+    }
+};
+static const StaticInitSnapshot g_static_init_snapshot;
+
+VP_EXHAUSTIVE (static_init_time, 65536, 65536, "conversions performed by a static initialiser of the harness TU (linked ahead of the library objects): every half pattern to float (C function and cast) and one float per high-16-bit block to half; compared with the oracle; non-trivial = subnormal, inf or NaN half pattern")
+{
+    uint16_t h = (uint16_t) idx;
+    int      e = (h >> 10) & 31, m = h & 0x3ff;
+    c.nt (e == 31 || (e == 0 && m));
+    VP_NOTE (c, "half=0x" << std::hex << h << " converted during static initialisation");
+    uint32_t want = ref_h2f_bits (h);
+    VP_REQUIRE (c, g_static_init_snapshot.h2f_c[h] == want, "static-init/h2f-c-function", "during static initialisation imath_half_to_float(0x" << std::hex << h << ") = 0x" << g_static_init_snapshot.h2f_c[h] << " expected 0x" << want);
+    VP_REQUIRE (c, g_static_init_snapshot.h2f_cast[h] == want, "static-init/h2f-class-cast", "during static initialisation float(half 0x" << std::hex << h << ") = 0x" << g_static_init_snapshot.h2f_cast[h] << " expected 0x" << want);
+    uint32_t u = ((uint32_t) h << 16) | (((uint32_t) h * 40503u) & 0xffff);
+    VP_REQUIRE (c, g_static_init_snapshot.f2h[h] == ref_f2h_bits (u), "static-init/f2h-class-ctor", "during static initialisation half(float 0x" << std::hex << u << ").bits() = 0x" << g_static_init_snapshot.f2h[h] << " expected 0x" << ref_f2h_bits (u));
 }
 
 VP_MAIN ("C01")
